@@ -160,7 +160,13 @@ func (c *Chain) ExportImport() (result string, fs []eiFinding) {
 	defer func() {
 		if r := recover(); r != nil {
 			result = "X panic " + stage
-			fs = append(fs, eiFinding{"C08-panic" + sfx, fmt.Sprintf("genesis %s panicked: %v", stage, r)})
+			clause := "C08-panic" + sfx
+			if strings.Contains(fmt.Sprint(r), "expiration must be after the current block time") {
+				// cosmos-sdk x/authz: BeginBlock keeps a grant that expires exactly at the block time, ExportGenesis writes
+				// it out and InitGenesis at that time refuses it with a panic (known finding K7)
+				clause = "C08-panic-sdk-authz-grant-expiring-now"
+			}
+			fs = append(fs, eiFinding{clause, fmt.Sprintf("genesis %s panicked: %v", stage, r)})
 		}
 	}()
 	before := c.customStores()
